@@ -383,7 +383,7 @@ class Union:
                 {**cg.substitutions, "member_bound": bound},
             )
 
-        template = " or ".join("{}" for t in self.types)
+        template = "(" + " or ".join("{}" for t in self.types) + ")"
         return combine(template, [guarded(t) for t in self.types])
 
     def __type_order__(self, other):
